@@ -158,4 +158,80 @@ def covdShiftDown (beta : Fin 3 → K) (gam : Fin 3 → Fin 3 → K) (Gam : Fin 
 def dtGamma (alpha : K) (Kd Dbeta : Fin 3 → Fin 3 → K) (i j : Fin 3) : K :=
   -(2 * alpha * Kd i j) + Dbeta i j + Dbeta j i
 
+/-! ### the 4-D Christoffel symbols in 3+1 form -/
+
+/-- the 3+1 data and their first derivatives at one point ("jet"): lapse `alpha`, shift `beta^i`,
+spatial metric `gam_ij` with inverse `gamup^ij`, extrinsic curvature `Kd_ij`, spatial connection
+`Gam3^l_ij`; time derivatives `dta = ∂_t α`, `dtb l = ∂_t β^l`; spatial derivatives `da i = ∂_i α`,
+`db i k = ∂_i β^k`, `dgam i k j = ∂_i γ_kj`. -/
+structure Jet (K : Type) where
+  alpha : K
+  beta : Fin 3 → K
+  gam : Fin 3 → Fin 3 → K
+  gamup : Fin 3 → Fin 3 → K
+  Kd : Fin 3 → Fin 3 → K
+  Gam3 : Fin 3 → Fin 3 → Fin 3 → K
+  dta : K
+  dtb : Fin 3 → K
+  da : Fin 3 → K
+  db : Fin 3 → Fin 3 → K
+  dgam : Fin 3 → Fin 3 → Fin 3 → K
+
+namespace Jet
+variable (J : Jet K)
+
+/-- `β_j = β^k γ_kj`. -/
+def betad (j : Fin 3) : K := ∑ k, J.beta k * J.gam k j
+/-- `D_m β^l = ∂_m β^l + Γ^l_{nm} β^n`. -/
+def Db (m l : Fin 3) : K := J.db m l + ∑ n, J.Gam3 l n m * J.beta n
+/-- `Γ^t_tt = (∂_t α + β^m ∂_m α − β^m β^n K_mn)/α`. -/
+def Gttt : K := (J.dta + ∑ m, J.beta m * J.da m - ∑ m, ∑ n, J.beta m * J.beta n * J.Kd m n) / J.alpha
+/-- `Γ^t_ti = (∂_i α − β^m K_mi)/α`. -/
+def Gtti (i : Fin 3) : K := (J.da i - ∑ m, J.beta m * J.Kd m i) / J.alpha
+/-- `Γ^t_ij = −K_ij/α`. -/
+def Gtij (i j : Fin 3) : K := -J.Kd i j / J.alpha
+/-- `Γ^l_tt = γ^{lm}(α ∂_m α − 2 α β^n K_nm) − β^l Γ^t_tt + ∂_t β^l + β^m D_m β^l`. -/
+def Gltt (l : Fin 3) : K :=
+  ∑ m, J.gamup l m * (J.alpha * J.da m - 2 * J.alpha * ∑ n, J.beta n * J.Kd n m)
+    - J.beta l * J.Gttt + J.dtb l + ∑ m, J.beta m * J.Db m l
+/-- `Γ^l_mt = −β^l Γ^t_tm − α γ^{ln} K_nm + D_m β^l`. -/
+def Glmt (l m : Fin 3) : K := -J.beta l * J.Gtti m - J.alpha * ∑ n, J.gamup l n * J.Kd n m + J.Db m l
+/-- `Γ^l_ij = ³Γ^l_ij + β^l K_ij/α`. -/
+def Glij (l i j : Fin 3) : K := J.Gam3 l i j + J.beta l * J.Kd i j / J.alpha
+
+/-- the 4-D Christoffel symbols written in 3+1 pieces (e.g. Gourgoulhon, *3+1 Formalism*, the
+connection coefficients in coordinates adapted to the foliation; these are the six pieces of
+core.py `st_Gamma_udd4`). -/
+def christoffel3p1 : Fin 4 → Fin 4 → Fin 4 → K :=
+  tsplit
+    (tsplit (tsplit J.Gttt J.Gtti) fun i => tsplit (J.Gtti i) fun j => J.Gtij i j)
+    fun l => tsplit (tsplit (J.Gltt l) fun m => J.Glmt l m) fun i => tsplit (J.Glmt l i) fun j => J.Glij l i j
+
+/-- the assembled 4-metric. -/
+def g4 : Fin 4 → Fin 4 → K := metric3p1 J.alpha J.beta J.gam
+/-- `D_i β_j`. -/
+def DbD (i j : Fin 3) : K := covdShiftDown J.beta J.gam J.Gam3 J.db J.dgam i j
+/-- `∂_t γ_ij` from the kinematic relation. -/
+def dtgam (i j : Fin 3) : K := dtGamma J.alpha J.Kd J.DbD i j
+/-- `∂_c g_ab` of the assembled metric by the product rule: `c = t` from `∂_t α`, `∂_t β^i` and the
+kinematic relation, `c = i` from the spatial derivatives. -/
+def dg4 : Fin 4 → Fin 4 → Fin 4 → K :=
+  tsplit (dmetric3p1 J.alpha J.beta J.gam J.dta J.dtb J.dtgam)
+    fun i => dmetric3p1 J.alpha J.beta J.gam (J.da i) (J.db i) (J.dgam i)
+
+/-- hypotheses under which the 3+1 pieces are the Christoffel symbols of the assembled metric:
+symmetric `γ`, `K`; `Gam3` the torsion-free, metric-compatible connection of `γ` with respect to
+the derivative jets; `gamup` the inverse of `γ` (stated as: lowering after raising is the identity);
+non-vanishing lapse; characteristic ≠ 2 (the definition contains the literal ½). -/
+structure LeviCivita : Prop where
+  symg : ∀ i j, J.gam i j = J.gam j i
+  symK : ∀ i j, J.Kd i j = J.Kd j i
+  symG : ∀ l i j, J.Gam3 l i j = J.Gam3 l j i
+  mc : ∀ i k j, J.dgam i k j = ∑ l, J.gam l j * J.Gam3 l i k + ∑ l, J.gam k l * J.Gam3 l i j
+  inv : ∀ (X : Fin 3 → K) (k : Fin 3), ∑ l, J.gam k l * ∑ n, J.gamup l n * X n = X k
+  ha : J.alpha ≠ 0
+  two : (2 : K) ≠ 0
+
+end Jet
+
 end AurelVerif.Spec.Curvature
